@@ -1,6 +1,7 @@
 package props
 
 import (
+	"encoding/base64"
 	"fmt"
 	"strings"
 
@@ -28,6 +29,12 @@ func checkGenuine(cs *mon.Case, w *World, g *Genuine) (string, string) {
 		return "", ""
 	}
 	enc := sim.Encode(xml, g.Level)
+	switch cs.Index % 40 {
+	case 7: // legal DEFLATE presentations whose first bytes look like text
+		enc = base64.StdEncoding.EncodeToString(sim.DeflateStartingWithLT([]byte(xml)))
+	case 23:
+		enc = base64.StdEncoding.EncodeToString(sim.DeflateStoredSniff([]byte(xml), ' ', 0x3C))
+	}
 	cs.Input([]byte(xml))
 	r := cs.Rand()
 	sp, _, _ := SPFor(r, w, g.Signer)
